@@ -5,6 +5,12 @@ From VGI Require Import M_Dataclass G_Dataclass P_C03.
 Import ListNotations.
 Open Scope N_scope.
 
+(* Not part of gen_cfg: _is_optional_type.  The translator accepts its original text and the text of /repo commit e0af9e7
+   (Annotated[X | None, m] is reported as (Annotated[X, m], True)).  On the dataclass path the added branch only changes the
+   `nullable` flag of an Annotated[D | None, ArrowType(pa.binary())] column in _generate_schema -- the model's schema carries
+   no nullability, a None value is a null column either way -- and adds one recursion in _infer_arrow_type that ends in the
+   same explicit Arrow type (schema_fields: KBinary -> ABin).  _compact_plan, deserialize_from_batch and
+   _convert_value_for_deserialization receive `unwrapped_type`, so `unopt` / the TOpt case of `de` are unaffected. *)
 Lemma cfg_tie : gen_cfg = model_cfg.
 Proof. reflexivity. Qed.
 
